@@ -146,6 +146,22 @@ fn scenario(seed: u64, drv_path: String) -> Vec<Fail> {
         }
     }
     observed.push(("c0".to_string(), true));
+    // an open that FAILS half-way (CURRENT is missing and the database may not be created) must not
+    // keep the lock: the racing opens below would all be refused
+    if rng.chance(1, 3) {
+        use raindb::fs::FileSystem;
+        let cur = fs.get_root_path().join("db").join("CURRENT");
+        let bak = fs.get_root_path().join("db").join("CURRENT.away");
+        if fs.rename(&cur, &bak).is_ok() {
+            let mut o = opts(&fs, reuse);
+            o.create_if_missing = false;
+            match DB::open(o) {
+                Ok(_d) => fails.push(("c17:open-without-current-succeeds".into(), "DB::open with create_if_missing=false succeeded although CURRENT is missing".into())),
+                Err(_) => {}
+            }
+            let _ = fs.rename(&bak, &cur);
+        }
+    }
     // after close: racing opens, exactly one wins
     let nrace = rng.range(2, 5) as usize;
     let barrier = Arc::new(Barrier::new(nrace));
